@@ -654,8 +654,7 @@ def _execute(scn, keep_objects=False, prev_ctx=None):
                             for o in ctx.objs]
 
     # -- load, initial conditions
-    if scn.get('load') is not None:
-        spec = scn['load']
+    def attach_load(spec):
         li = spec.get('on', ctx.chain[-1])
         unit = spec['unit']
         fac = si.factor('Torque', unit)
@@ -688,6 +687,8 @@ def _execute(scn, keep_objects=False, prev_ctx=None):
             return U.Torque(v / fac, unit)
         ctx.objs[li].external_torque = external_torque
         H['load_on'] = li
+    if scn.get('load') is not None:
+        attach_load(scn['load'])
     init = scn.get('init')
 
     def apply_ic():
@@ -836,6 +837,9 @@ def _execute(scn, keep_objects=False, prev_ctx=None):
                 res['elements_type'] = type(pt.elements).__name__
                 res['self_locking'] = pt.self_locking
                 rec['probe'] = res
+            elif kind == 'set_load':
+                # the user replaces the external torque function between runs
+                attach_load(op['load'])
             elif kind == 'convert_live':
                 # the user converts a live quantity IN PLACE to another unit
                 # between two operations (legal; physics must not change)
@@ -910,8 +914,12 @@ def next_phase(scn):
     nx = scn['next']
     s2 = {k: v for k, v in scn.items() if k != 'next'}
     s2['elements'] = scn['elements'] + nx.get('elements', [])
-    s2['decls'] = scn['decls'] + nx['decls']
-    s2['phase_first_decl'] = len(scn['decls'])
+    # declarations made during the previous phase's schedule are part of
+    # the declaration history too (already applied to the objects)
+    redecl = [o['decl'] for o in scn.get('schedule', [])
+              if o['op'] == 'redeclare']
+    s2['decls'] = scn['decls'] + redecl + nx['decls']
+    s2['phase_first_decl'] = len(scn['decls']) + len(redecl)
     s2['schedule'] = nx['schedule']
     if 'init' in nx:
         s2['init'] = nx['init']
